@@ -38,10 +38,10 @@ static FixedArray<T>
 BoxArray_get(FixedArray<IMATH_NAMESPACE::Box<T> > &va)
 {
     return index == 0 ? 
-           FixedArray<T>(&(va.unchecked_index(0).min),
-                         va.len(),2*va.stride(),va.handle(),va.writable()) :
-           FixedArray<T>(&(va.unchecked_index(0).max),
-                         va.len(),2*va.stride(),va.handle(),va.writable());
+           FixedArray<T>(&(va.unchecked_direct_index(0).min),
+                         2*va.stride(),va) :
+           FixedArray<T>(&(va.unchecked_direct_index(0).max),
+                         2*va.stride(),va);
 }
 
 template <class T>
